@@ -406,4 +406,4 @@ pub fn generate(r: &mut Runner) {
     }
 }
 
-pub const RULE: &str = "stage 1: every sequence of the stated depth over the alphabet {-2,-1,0,1,1e6,3} (ties, sign changes, zero, a 10^6 spike) for periods 1..=5 and all 7 indicators (all prefixes are checked, so shorter sequences are included); stage 2: sampled periods to 1024, regimes walk/alt/spike/plateau/saw/alphabet/flat/trend/mixed, magnitudes from 1e-12 to 1e12, any sign, a quarter of the streams negated as a whole (all-negative windows with distinct values when the stream was a positive one); a third of the sampled cases and a seventh of the exhaustive ones contain reset() calls (t and the window restart); stage 3: instances obtained from Default::default() (judged with the documented default period 9 / 14 and multiplier 2): every sequence of depth 4 (quick) / 6 (thorough) over the stage-1 alphabet (inside the warm-up: a padded or pre-filled window shows) and 12 / 300 sampled streams per indicator (a third positive, a third negated, a third of any sign; a quarter with a reset); stage 4 (hidden update counters): long reset-free runs on one instance, the stream regenerated from a seed stored in the case — per indicator 3 (quick) / 8 (thorough) runs of 2^20+2n+3.. inputs in a random regime of {walk, alt, spike, plateau, saw, ticks, quiet, iid} over the band [scale/1000, scale] (scale from 1e-9 to 1e12; values as is, negated, or shifted to both signs), and for all but MeanAbsoluteDeviation 1 (quick) / 4 (thorough) runs of 2^24+2n+3.. inputs in the regimes whose windows spread over the whole band (iid uniform, alternating extremes; tau(2^24) = 7e-5); periods to 1000 (to 100 for the 2^24 runs, to 64 for MAD), three quarters of them coprime to 10 (dividing no round count; the rest includes powers of two and 1); compared from scratch at the first 2n+2 steps, 400 evenly spaced steps and the end, MeanAbsoluteDeviation in addition at EVERY step of [N-1, N+2n+2] for every round count N (powers of two 2^10..2^24, 10^3, 5·10^3, …, 10^7), and SMA, WMA, SD, BB, Minimum, Maximum at EVERY step of the run against exact running double-double evaluations of the window (cross-checked against the from-scratch evaluation at the sampled steps), so that a counter of any interval up to 2^24 is observed even if its effect heals; the known WMA drift (first exceedance of tau·M by at most 2× at t >= 1000, reported as wma-drift-marginal) does not end a long run: from there on a jump of WMA's signed error by more than tau·M/4 in one step is a failure (rounding moves it by < tau·M/100 per step). A case is non-trivial when the stream is longer than the period (stages 1, 3) or wraps the ring at least twice (stage 2; always in stage 4); distinct = distinct (indicator, params, stream) encodings.";
+pub const RULE: &str = "stage 1: every sequence of the stated depth over the alphabet {-2,-1,0,1,1e6,3} (ties, sign changes, zero, a 10^6 spike) for periods 1..=5 and all 7 indicators (all prefixes are checked, so shorter sequences are included); stage 2: sampled periods to 1024, regimes walk/alt/spike/plateau/saw/alphabet/flat/trend/mixed, magnitudes from 1e-12 to 1e12, any sign, a quarter of the streams negated as a whole (all-negative windows with distinct values when the stream was a positive one); a third of the sampled cases and a seventh of the exhaustive ones contain reset() calls (t and the window restart); stage 3: instances obtained from Default::default() (judged with the documented default period 9 / 14 and multiplier 2): every sequence of depth 4 (quick) / 6 (thorough) over the stage-1 alphabet (inside the warm-up: a padded or pre-filled window shows) and 12 / 300 sampled streams per indicator (a third positive, a third negated, a third of any sign; a quarter with a reset); stage 4 (hidden update counters): long reset-free runs on one instance, the stream regenerated from a seed stored in the case — per indicator 3 (quick) / 8 (thorough) runs of 2^20+2n+3.. inputs in a random regime of {walk, alt, spike, plateau, saw, ticks, quiet, iid, hush} over the band [scale/1000, scale] (scale from 1e-9 to 1e12; values as is, negated, or shifted to both signs), and for all but MeanAbsoluteDeviation 1 (quick) / 4 (thorough) runs of 2^24+2n+3.. inputs in the regimes whose windows spread over the whole band (iid uniform, alternating extremes; tau(2^24) = 7e-5); periods to 1000 (to 100 for the 2^24 runs, to 64 for MAD), three quarters of them coprime to 10 (dividing no round count; the rest includes powers of two and 1); compared from scratch at the first 2n+2 steps, 400 evenly spaced steps and the end, MeanAbsoluteDeviation in addition at EVERY step of [N-1, N+2n+2] for every round count N (powers of two 2^10..2^24, 10^3, 5·10^3, …, 10^7), and SMA, WMA, SD, BB, Minimum, Maximum at EVERY step of the run against exact running double-double evaluations of the window (cross-checked against the from-scratch evaluation at the sampled steps), so that a counter of any interval up to 2^24 is observed even if its effect heals; the known WMA drift (first exceedance of tau·M by at most 2× at t >= 1000, reported as wma-drift-marginal) does not end a long run: from there on a jump of WMA's signed error by more than tau·M/4 in one step is a failure (rounding moves it by < tau·M/100 per step). A case is non-trivial when the stream is longer than the period (stages 1, 3) or wraps the ring at least twice (stage 2; always in stage 4); distinct = distinct (indicator, params, stream) encodings.";
